@@ -35,6 +35,7 @@ fn one_unit(u: Unit) -> Program {
         probe_cells: false,
         pull_params: None,
         pull_skip: 0,
+        mixed_rows: 0,
     }
 }
 
@@ -1063,6 +1064,7 @@ fn gen_c13_plan(r: &mut Rng, kind: u16) -> Plan {
                     probe_cells: false,
                     pull_params: None,
                     pull_skip: 0,
+                    mixed_rows: 0,
                 },
             ));
         }
@@ -1089,6 +1091,7 @@ fn gen_c13_plan(r: &mut Rng, kind: u16) -> Plan {
                     probe_cells: false,
                     pull_params: None,
                     pull_skip: 0,
+                    mixed_rows: 0,
                 },
             ));
         }
@@ -1325,6 +1328,7 @@ fn gen_c14_bulk(r: &mut Rng, t: Tier, past_u32: bool) -> Plan {
         probe_cells: false,
         pull_params: None,
         pull_skip: 0,
+        mixed_rows: 0,
     };
     let mut cmds = Vec::new();
     if r.coin() {
@@ -1417,6 +1421,7 @@ fn gen_c14(r: &mut Rng, t: Tier, job: u64) -> Plan {
             probe_cells: false,
             pull_params: None,
             pull_skip: 0,
+            mixed_rows: 0,
         };
         if prog.end == End::Implicit {
             if let Some(Unit::Rows(ru)) = prog.units.last_mut() {
